@@ -333,7 +333,8 @@ CORPUS = [
     _P("basic_index", [ph("x", (5, 4))],
        lambda L, x: {"row": x[1], "neg": x[-1, -2], "sl": x[1:4, ::2], "rev": x[::-1], "rev0": x[3::-1, 1],
                      "revend": x[4:0:-2], "empty": x[3:1], "ell": x[..., 0], "clip": x[-100:100, 2:100],
-                     "revpast": x[7:2:-1], "revlen": x[5::-1, 0], "revfar": x[100::-2]}),
+                     "revpast": x[7:2:-1], "revlen": x[5::-1, 0], "revfar": x[100::-2],
+                     "revnone": x[-9::-2], "revnone2": x[-6:1:-1, 0]}),
     _P("adv_index", [ph("x", (4, 3, 2)), ph("i", (2,), I64), ph("j", (2, 1), I64)],
        lambda L, x, i, j: {"a": x[i], "b": x[:, i], "c": x[i, :, i], "d": x[j, i % 3], "e": x[i, 1], "f": x[1:3, i % 3, ::-1],
                            "g": x[i, :, 0], "h": x[1, i % 3], "k": x[2, i % 3, :], "l": (2 * x)[0, i % 3, 1:] + 1},
